@@ -3,7 +3,7 @@ LEVEL = "model_checking"
 TECHNIQUE = "CBMC bounded symbolic execution of evutil_inet_ntop/evutil_inet_pton/evutil_parse_sockaddr_port/evutil_format_sockaddr_port_ vs a strict reference parser (glibc algorithm transcribed), libc scanf/printf/strtol modelled"
 UNITS = ["evutil.c", "strlcpy.c"]
 FUNCTIONS = ["evutil_inet_ntop", "evutil_inet_pton", "evutil_inet_pton_scope", "evutil_parse_sockaddr_port", "evutil_format_sockaddr_port_", "event_strlcpy_"]
-BOUNDS = "ntop: every IPv4 address x len 0..18, IPv6: every IPv4-compatible/-mapped address x len 0..24; hex form: quick = addresses with five consecutive zero words (3 placements) x len 0..41, thorough = every address (2^128) x len 0..41 plus parse-back of the full text; pton: every byte string of length <= L (v4 L=9, v6 L=7 quick / 10 and 9 thorough); sockaddr text round trip: every IPv4/IPv6 address and non-zero port"
+BOUNDS = "ntop: every IPv4 address x len 0..18, IPv6: every IPv4-compatible/-mapped address x len 0..24; hex form: quick = addresses with five consecutive zero words (3 placements) x len 0..41, thorough = one more placement (the full 2^128 hex-form domain did not finish in 1 h and is not claimed; the parse-back oracle is only decided for the IPv4-compatible/-mapped form); pton: every byte string of length <= L (v4 L=9, v6 L=7 quick / 10 and 9 thorough); sockaddr text round trip: every IPv4/IPv6 address and non-zero port"
 OUT = "evutil_parse_sockaddr_port / evutil_format_sockaddr_port_ round trip: NOT decided (every encoding tried -- whole round trip, fixed address with symbolic port digits, path-wise symex -- ran out of 5-8 GB or time: the parser re-scans the text with strchr/memcpy/atoi/inet_pton_scope and cbmc walks the IPv6 and IPv4 interpretations of every symbolic digit); a seeded change of the port bound (65535) is therefore not caught; strings longer than L (e.g. v4 components that overflow 2^32 need >= 10 digits); zone ids with real interface names (if_nametoindex stub returns 0); the platform's own inet_pton/inet_ntop are not encoded: the reference is a transcription of glibc's algorithm, cross-checked natively on 50M strings during development"
 TEXT = "Solver decides over all addresses and buffer lengths that a successful ntop is complete, terminated, inside the buffer and maps back to the same address under a strict parser, and over all short strings that pton accepts exactly the strict grammar with the same address."
 NOTE = "Trusted: cbmc; env/inet_fmt.h models of vsnprintf/sscanf/strtol (native replay links glibc instead, so model errors do not reproduce); ref/inet_ref.h."
@@ -36,11 +36,10 @@ def obligations(tier):
     ]
     # full 2^128 domain of the hex form needs > 900 s (UNSAT proof): thorough only; the quick tier decides the same
     # obligation on three sub-domains with five zero words (gap in the middle / at the end / at the start)
-    for f, t in ((2, 6), (3, 7), (0, 4)):
+    for f, t in (((2, 6), (3, 7), (0, 4)) if q else ((2, 6), (3, 7), (0, 4), (1, 5))):
         o = dict(HEXLEN); o["name"] = "ntop6_hex_len_zero%d_%d" % (f, t); o["defines"] = HEXLEN["defines"] + ["VP_ZERO_FROM=%d" % f, "VP_ZERO_TO=%d" % t]
         o["timeout"] = 900; o["desc"] = "words %d..%d zero, the other three words symbolic, every len 0..41: success iff complete text + NUL fit" % (f, t)
         obs.append(o)
-    if not q:
-        obs.append(HEXLEN)
-        obs.append(HEXFULL)
+    # the same obligation over the full 2^128 hex-form domain (and the parse-back of the full text) did not finish
+    # in 3600 s / 3000 s (measured, thorough run): not claimed; HEXLEN/HEXFULL are kept above as the templates only
     return obs
